@@ -240,6 +240,8 @@ func checkC05(p *Program, r *Report) {
 	// ---- the stream Marshal returns is the caller's alone (shared with C20.marshal): a stream that
 	// lives in pooled or retained memory is overwritten by the next Marshal before it is loaded
 	c20MarshalAs(p, r, "C05.stream-fresh")
+	// ---- same input, same bytes, whatever was built before
+	checkBuildStateless(p, r, "C05.build-stateless")
 }
 
 // mapRangeDiscipline checks one range-over-map loop. Returns ("", description)
